@@ -117,6 +117,10 @@ func C05real(r *ev.Report) {
 func init() {
 	Parts["C05real"] = Part{"C05", C05real}
 	Replayers["C05"] = func(c Case) (bool, string) {
+		if c["op"] == "persist" {
+			return Replayers["C10"](c)
+		}
+
 		key, detail := c05Case(repFromCase("a", c), repFromCase("b", c))
 		return key == "", key + " " + detail
 	}
